@@ -156,7 +156,10 @@ def calculate_time_slot(
 
     time_slot_size = service_interval / total_runners
     runner_start_time = runner_position * time_slot_size
-    runner_end_time = runner_start_time + time_slot_size - spread_margin
+    # the end is derived from the next runner's start, (position + 1) * slot, so that with a
+    # margin of 0 consecutive windows share the boundary exactly: start + slot can round one
+    # ulp above the next start and authorise two runners at that instant
+    runner_end_time = (runner_position + 1) * time_slot_size - spread_margin
 
     # Ensure the window is valid (a margin that does not fit into the slot must
     # fall back even when float rounding of start + slot - margin lands above start)
